@@ -63,4 +63,28 @@ PROPS = {
         "trusted_base": COMMON_TB,
         "assumptions": ["as C01"],
     },
+    "C19": {
+        "streams": ["count", "wrapops"],
+        "rule": "(i) the wrapper itself: seeded operation sequences (read n with n in {0,1,small,exact remaining,remaining+1,huge}, read_byte, remaining_len, descend_ref, ascend_ref, on_before_alloc_mem; length 1..100) applied to a real CountedInput over a slice and to the model's countedInput sliceInput, the operation's result and count() compared after every operation; (ii) decoders through it for every catalogue type on exact, suffixed, mutated and truncated encodings: on success value, remaining and count are compared with the model; after success AND failure the implementation-side oracle count() == original_len - remaining_len is checked (positions at failure are not compared with the model). non-trivial = distinct request whose model answer is not `err`",
+        "level_text": "Proved in Lean for ANY wrapped input and ANY (adaptive) sequence of Input operations, successful or failing: CountedInput's count() equals the exact number of bytes the wrapped input delivered, saturated at u64::MAX, and the wrapper alters neither results nor the wrapped input (one exact-simulation theorem over all decoder programs). Over a slice: count == original length - remaining length after every decode, successful or failed; == encoded length after decoding an encoding; a failed read adds nothing; the counter never decreases nor exceeds u64::MAX. Tied to src/counted_input.rs by operation sequences on the real wrapper and by all catalogue decoders run through it.",
+        "level_note": "Trusted: as C01. Saturation beyond 2^64 bytes cannot be exercised on real hardware; it is covered by the theorem (the model adds with min at 2^64-1 exactly as saturating_add / try_into().unwrap_or(u64::MAX)) and by the transliteration being compared on every other path.",
+        "trusted_base": COMMON_TB,
+        "assumptions": ["the wrapped input does not override scale_internal_decode_bytes (true of every input CountedInput can wrap through its public constructor: the override is not forwarded)"],
+    },
+    "C11": {
+        "streams": ["limit", "decall"],
+        "rule": "limit requests: for every catalogue type (nesting Vec, Box, Rc, Arc, BTreeMap, BTreeSet, LinkedList, VecDeque, BinaryHeap, Option, tuples, recursive derived Tree/Chain) on valid, mutated and suffixed encodings, every limit L = 0..need+2 (need = least succeeding limit, scan capped at 12 when none succeeds): value, remaining compared with the model; oracles: transparent (ok => equals unlimited), monotone in L, some limit succeeds when unlimited does; decode_all_with_depth_limit vs decode. non-trivial = distinct request whose model answer is not `err`",
+        "level_text": "Proved in Lean for every type, byte string and limit (lax simulation theorem over all decoder programs between the unlimited input, a depth-recording specification input and the transliterated DepthTrackingInput): limited decoding returns exactly the unlimited result (value and position) or an error; when unlimited decoding succeeds, the limited one succeeds with the same result IFF L >= need, where need is the maximal number of simultaneously open descend_ref calls of the unlimited run (hence monotone in L, success for all L >= need, failure for all L < need); decode_all_with_depth_limit succeeds iff decode_with_depth_limit succeeds with nothing left. Tied to the crate by the limit stream over all L around the threshold.",
+        "level_note": "Trusted: as C01. Partial: (1) 'stack-safe' - the theorem bounds the number of open descend_ref levels, i.e. decoder frames of heap-allocating containers, not machine stack bytes; survival of 10^6-deep input on a small stack is a harness observation (thorough tier), not a theorem. (2) need <= value nesting depth is checked by the tie (every L from 0), the theorem fixes need as a property of the unlimited run.",
+        "trusted_base": COMMON_TB,
+        "assumptions": ["the model runs the wrapper over a slice; C08 extends to other inputs"],
+    },
+    "C12": {
+        "streams": ["mem", "wrapops"],
+        "rule": "mem requests for every DecodeWithMemTracking catalogue type on valid and mutated encodings: first L = usize::MAX (gives U = used_mem()), then every L in 0..=U+1 when U <= 96 (4096 thorough), boundary limits {0,1,U/2,U-1,U,U+1,2U} otherwise: result, remaining and used_mem() compared with the model after success and failure; oracles: non-binding limit transparent, success for all L > U, failure for all 0 < L <= U; plus operation sequences (hook sizes incl. 0, usize::MAX and saturating sums; limits incl. 0 and usize::MAX) on a real MemTrackingInput vs the model, used_mem() compared after every operation. non-trivial = distinct request whose model answer is not `err`",
+        "level_text": "Proved in Lean for every type, byte string and limit L <= usize::MAX: memory-limited decoding returns exactly the unlimited result or an error; with U the tracked usage of the unlimited run, if unlimited decoding succeeds then L > U gives the same value, position and used_mem = U, and U > 0 with L <= U gives an error - a single exact threshold (hence monotone). The hook sizes (chunked vec reservations, Box sizes, list node sizes, the transliterated mem_size_of_btree estimate) are part of the decoder model and compared with used_mem() of the real MemTrackingInput on every request.",
+        "level_note": "Trusted: as C01; size_of values and the b-tree leaf size are measured by the harness in the same build and passed in the type descriptor. Partial: 'U is zero for values holding no heap data and at least the payload bytes' is established per request by comparing the model's U with the real used_mem() and by the kernel-checked examples; the general value-level lower bound is not yet a theorem.",
+        "trusted_base": COMMON_TB + ["size_of::<T>() measured by the harness"],
+        "assumptions": ["limits are usize values (L <= 2^64-1)"],
+    },
 }
